@@ -330,6 +330,27 @@ class LinalgProxy:
         return out.view(SymArray)
 
 
+    @staticmethod
+    def eigvalsh(M, UPLO="L"):
+        """Eigenvalues of a symmetric matrix in ascending order: exact for p = 1 (the entry) and p = 2 (closed form with
+        a defined square root); larger symbolic matrices are outside the contract."""
+        if not has_sym(M):
+            return _np.linalg.eigvalsh(_np.asarray(M, dtype=float), UPLO=UPLO)
+        M = _np.asarray(M, dtype=object)
+        p = M.shape[0]
+        out = _np.empty(p, dtype=object)
+        if p == 1:
+            out[0] = M[0, 0] if is_sym(M[0, 0]) else SymReal(rv(M[0, 0]))
+        elif p == 2:
+            a, b, d = M[0, 0], (M[1, 0] if UPLO == "L" else M[0, 1]), M[1, 1]
+            half_tr = (a + d) / 2
+            r = sym_sqrt(((a - d) / 2) * ((a - d) / 2) + b * b)
+            out[0], out[1] = half_tr - r, half_tr + r
+        else:
+            raise NotImplementedError("np.linalg.eigvalsh on a symbolic matrix larger than 2x2 has no contract in symnp")
+        return out.view(SymArray)
+
+
 # ----------------------------------------------------------------------------------
 # the proxy
 # ----------------------------------------------------------------------------------
